@@ -118,6 +118,9 @@ def shard(shard_i, nshards, payload):
                     case = {"files": files, "planted": code, "site": site}
                     if judge_fail(res, r, obs, want, case, "rule:" + code):
                         res.distinct.add(core.key_of(code, site.split(":")[0], k, len(parts)))
+                        if len(res.samples) < 1:
+                            res.sample({"planted": code, "site": site, "files": [[n, t[:160]] for n, t in files],
+                                        "codes_reported": [d["code"] for d in r["diags"]]})
                         res.seen("fault_kinds", code)
                     if isinstance(r, dict):
                         cons = conservation(obs)
